@@ -36,6 +36,12 @@ theorem evalS_mem_statuses (env : Env) (v : View) : ∀ (s : Stmt) (st : Status)
       cases b with
       | true => simp only [hc] at h; simp [Stmt.statuses, iht st h]
       | false => simp only [hc] at h; simp [Stmt.statuses, ihe st h]
+  | assertInt f k s0 ih =>
+    intro st h
+    simp only [evalS] at h
+    by_cases hk : v.int f = k
+    · simp only [hk, beq_self_eq_true, if_true] at h; simpa [Stmt.statuses] using ih st h
+    · simp [hk] at h
 
 /-- what a rule can answer: a panic, "not applicable", or one of the statuses written in its body -/
 theorem run_cases (env : Env) (r : Rule) (v : View) :
@@ -53,9 +59,18 @@ theorem run_cases (env : Env) (r : Rule) (v : View) :
 
 /-! ### the guard analysis is sound -/
 
-def Present (v : View) (g : List Oid) : Prop := ∀ o ∈ g, (v.ext? o).isSome = true
+/-- what a fact says about a view -/
+def _root_.Zl.LL.Fact.holds (v : View) : Fact → Prop
+  | .ext o => (v.ext? o).isSome = true
+  | .intEq f k => v.int f = k
 
-theorem present_append {v : View} {a b : List Oid} (ha : Present v a) (hb : Present v b) : Present v (a ++ b) := by
+def Present (v : View) (g : List Fact) : Prop := ∀ o ∈ g, o.holds v
+
+theorem present_nil (v : View) : Present v [] := by intro o ho; simp at ho
+theorem present_one {v : View} {x : Fact} (h : x.holds v) : Present v [x] := by
+  intro o ho; simp at ho; subst ho; exact h
+
+theorem present_append {v : View} {a b : List Fact} (ha : Present v a) (hb : Present v b) : Present v (a ++ b) := by
   intro o ho
   rcases List.mem_append.mp ho with h | h
   · exact ha o h
@@ -67,7 +82,13 @@ theorem facts_sound (env : Env) (v : View) : ∀ c : Cond,
   induction c with
   | const b => constructor <;> intro _ o ho <;> simp [Cond.posFacts, Cond.negFacts] at ho
   | bool f => constructor <;> intro _ o ho <;> simp [Cond.posFacts, Cond.negFacts] at ho
-  | int f c k => constructor <;> intro _ o ho <;> simp [Cond.posFacts, Cond.negFacts] at ho
+  | int f c k =>
+    cases c <;> (constructor <;> intro h) <;>
+      first
+        | (intro o ho; simp [Cond.posFacts, Cond.negFacts] at ho; done)
+        | (simp only [Cond.posFacts, Cond.negFacts]; apply present_one; simp [evalC, Cmp.eval] at h; simpa [Fact.holds] using h)
+  | icmp a c b => constructor <;> intro _ o ho <;> simp [Cond.posFacts, Cond.negFacts] at ho
+  | primes752 e => constructor <;> intro _ o ho <;> simp [Cond.posFacts, Cond.negFacts] at ho
   | mask f m => constructor <;> intro _ o ho <;> simp [Cond.posFacts, Cond.negFacts] at ho
   | strEq f l => constructor <;> intro _ o ho <;> simp [Cond.posFacts, Cond.negFacts] at ho
   | strP f q => constructor <;> intro _ o ho <;> simp [Cond.posFacts, Cond.negFacts] at ho
@@ -84,7 +105,7 @@ theorem facts_sound (env : Env) (v : View) : ∀ c : Cond,
     · intro h o' ho'
       simp [Cond.posFacts] at ho'
       subst ho'
-      simpa [evalC] using h
+      simpa [evalC, Fact.holds] using h
     · intro _ o' ho'; simp [Cond.negFacts] at ho'
   | crit o =>
     constructor
@@ -92,12 +113,12 @@ theorem facts_sound (env : Env) (v : View) : ∀ c : Cond,
       simp [Cond.posFacts] at ho'
       subst ho'
       simp only [evalC] at h
-      simp [h]
+      simp [Fact.holds, h]
     · intro h o' ho'
       simp [Cond.negFacts] at ho'
       subst ho'
       simp only [evalC] at h
-      simp [h]
+      simp [Fact.holds, h]
   | not c ih =>
     constructor
     · intro h
@@ -155,14 +176,58 @@ theorem facts_sound (env : Env) (v : View) : ∀ c : Cond,
           simp only [ha] at h
           simpa [Cond.negFacts] using present_append (iha.2 ha) (ihb.2 h)
 
+/-- an integer expression that passes the guard analysis has a value -/
+theorem safeI_sound (v : View) : ∀ (e : IExp) (g : List Fact), Present v g → e.safe g = true → (e.eval v).isSome = true := by
+  intro e
+  induction e with
+  | lit k => intros; simp [IExp.eval]
+  | fld f => intros; simp [IExp.eval]
+  | kfld f tf k =>
+    intro g hg hs
+    simp only [IExp.safe, List.contains_eq_mem, decide_eq_true_eq] at hs
+    have := hg _ hs
+    simp only [Fact.holds] at this
+    simp [IExp.eval, this]
+  | bitLen e ih =>
+    intro g hg hs
+    simp only [IExp.safe] at hs
+    have := ih g hg hs
+    simp only [IExp.eval]
+    cases h : e.eval v <;> simp_all
+  | tmod e k ih =>
+    intro g hg hs
+    simp only [IExp.safe, Bool.and_eq_true, bne_iff_ne, ne_eq] at hs
+    have := ih g hg hs.2
+    simp only [IExp.eval]
+    cases h : e.eval v <;> simp_all
+  | emod e k ih =>
+    intro g hg hs
+    simp only [IExp.safe, Bool.and_eq_true, bne_iff_ne, ne_eq] at hs
+    have := ih g hg hs.2
+    simp only [IExp.eval]
+    cases h : e.eval v <;> simp_all
+
 /-- a condition that passes the guard analysis does not panic when the extensions it relies on are present -/
-theorem safeC_sound (env : Env) (v : View) : ∀ (c : Cond) (g : List Oid), Present v g → c.safe g = true → (evalC env v c).isSome = true := by
+theorem safeC_sound (env : Env) (v : View) : ∀ (c : Cond) (g : List Fact), Present v g → c.safe g = true → (evalC env v c).isSome = true := by
   intro c
   induction c with
   | crit o =>
     intro g hg hs
     simp only [Cond.safe, List.contains_eq_mem, decide_eq_true_eq] at hs
-    simpa [evalC] using hg o hs
+    simpa [evalC, Fact.holds] using hg _ hs
+  | icmp a c b =>
+    intro g hg hs
+    simp only [Cond.safe, Bool.and_eq_true] at hs
+    have h1 := safeI_sound v a g hg hs.1
+    have h2 := safeI_sound v b g hg hs.2
+    simp only [evalC]
+    cases ha : a.eval v <;> cases hb : b.eval v <;> simp_all
+  | primes752 e =>
+    intro g hg hs
+    simp only [Cond.safe] at hs
+    have := safeI_sound v e g hg hs
+    simp only [evalC]
+    cases h : e.eval v <;> simp_all
   | not c ih =>
     intro g hg hs
     simp only [Cond.safe] at hs
@@ -207,7 +272,7 @@ theorem safeC_sound (env : Env) (v : View) : ∀ (c : Cond) (g : List Oid), Pres
   | anyI f is => intros; simp [evalC]
   | ext o => intros; simp [evalC]
 
-theorem safeS_sound (env : Env) (v : View) : ∀ (s : Stmt) (g : List Oid), Present v g → s.safe g = true → (evalS env v s).isSome = true := by
+theorem safeS_sound (env : Env) (v : View) : ∀ (s : Stmt) (g : List Fact), Present v g → s.safe g = true → (evalS env v s).isSome = true := by
   intro s
   induction s with
   | ret s0 => intros; simp [evalS]
@@ -222,6 +287,13 @@ theorem safeS_sound (env : Env) (v : View) : ∀ (s : Stmt) (g : List Oid), Pres
       cases x with
       | true => exact iht _ (present_append ((facts_sound env v c).1 hc) hg) hs.1.2
       | false => exact ihe _ (present_append ((facts_sound env v c).2 hc) hg) hs.2
+  | assertInt f k s0 ih =>
+    intro g hg hs
+    simp only [Stmt.safe, Bool.and_eq_true, List.contains_eq_mem, decide_eq_true_eq] at hs
+    have := hg _ hs.1
+    simp only [Fact.holds] at this
+    simp only [evalS, this, beq_self_eq_true, if_true]
+    exact ih g hg hs.2
 
 /-- **A rule that passes the guard analysis never panics, on any view**: `CheckApplies` returns, and
     `Execute` returns whenever `CheckApplies` answered true. -/
@@ -267,6 +339,16 @@ theorem any_congr_mem {α : Type} (p : α → Bool) (l l' : List α) (h : ∀ x,
   · rintro ⟨x, hx, hp⟩; exact ⟨x, (h x).mp hx, hp⟩
   · rintro ⟨x, hx, hp⟩; exact ⟨x, (h x).mpr hx, hp⟩
 
+theorem evalI_similar {v w : View} (h : Similar v w) : ∀ e : IExp, e.eval v = e.eval w := by
+  intro e
+  induction e with
+  | lit k => rfl
+  | fld f => simp [IExp.eval, h.ints]
+  | kfld f tf k => simp [IExp.eval, h.ints]
+  | bitLen e ih => simp [IExp.eval, ih]
+  | tmod e k ih => simp [IExp.eval, ih]
+  | emod e k ih => simp [IExp.eval, ih]
+
 theorem evalC_similar (env : Env) {v w : View} (h : Similar v w) : ∀ c : Cond, evalC env v c = evalC env w c := by
   intro c
   induction c with
@@ -286,6 +368,8 @@ theorem evalC_similar (env : Env) {v w : View} (h : Similar v w) : ∀ c : Cond,
   | anyI f is => simp only [evalC]; rw [any_congr_mem _ _ _ (h.lints f)]
   | ext o => simp [evalC, h.exts]
   | crit o => simp [evalC, h.exts]
+  | icmp a c b => simp [evalC, evalI_similar h]
+  | primes752 e => simp [evalC, evalI_similar h]
   | not c ih => simp [evalC, ih]
   | and a b iha ihb => simp [evalC, iha, ihb]
   | or a b iha ihb => simp [evalC, iha, ihb]
@@ -295,6 +379,7 @@ theorem evalS_similar (env : Env) {v w : View} (h : Similar v w) : ∀ s : Stmt,
   induction s with
   | ret s0 => rfl
   | ite c t e iht ihe => simp [evalS, evalC_similar env h c, iht, ihe]
+  | assertInt f k s0 ih => simp [evalS, h.ints, ih]
 
 /-- **Order independence of every translated rule** (C17): permuting the elements of any list field
     (SAN entries, policy identifiers, EKUs, subject attribute types, …) — or replacing a list by any list with
@@ -345,6 +430,16 @@ structure Mirrors (ρ : Nat → Nat) (σ : Oid → Oid) (v w : View) : Prop wher
   times : ∀ f, w.time f = v.time (ρ f)
   exts : ∀ o, w.ext? o = v.ext? (σ o)
 
+theorem evalI_rename {ρ σ} {v w : View} (h : Mirrors ρ σ v w) : ∀ e : IExp, (e.rename ρ).eval v = e.eval w := by
+  intro e
+  induction e with
+  | lit k => rfl
+  | fld f => simp [IExp.rename, IExp.eval, h.ints]
+  | kfld f tf k => simp [IExp.rename, IExp.eval, h.ints]
+  | bitLen e ih => simp [IExp.rename, IExp.eval, ih]
+  | tmod e k ih => simp [IExp.rename, IExp.eval, ih]
+  | emod e k ih => simp [IExp.rename, IExp.eval, ih]
+
 theorem evalC_rename (env : Env) {ρ σ} {v w : View} (h : Mirrors ρ σ v w) : ∀ c : Cond, evalC env v (c.rename ρ σ) = evalC env w c := by
   intro c
   induction c with
@@ -364,6 +459,8 @@ theorem evalC_rename (env : Env) {ρ σ} {v w : View} (h : Mirrors ρ σ v w) : 
   | anyI f is => simp [Cond.rename, evalC, h.lists]
   | ext o => simp [Cond.rename, evalC, h.exts]
   | crit o => simp [Cond.rename, evalC, h.exts]
+  | icmp a c b => simp [Cond.rename, evalC, evalI_rename h]
+  | primes752 e => simp [Cond.rename, evalC, evalI_rename h]
   | not c ih => simp [Cond.rename, evalC, ih]
   | and a b iha ihb => simp [Cond.rename, evalC, iha, ihb]
   | or a b iha ihb => simp [Cond.rename, evalC, iha, ihb]
@@ -373,6 +470,7 @@ theorem evalS_rename (env : Env) {ρ σ} {v w : View} (h : Mirrors ρ σ v w) : 
   induction s with
   | ret s0 => rfl
   | ite c t e iht ihe => simp [Stmt.rename, evalS, evalC_rename env h c, iht, ihe]
+  | assertInt f k s0 ih => simp [Stmt.rename, evalS, h.ints, ih]
 
 /-- **A rule whose terms are the renamed terms of its twin answers, on any certificate, what the twin answers on
     the mirror-image certificate** (C20 for duplicated rules inside the fragment). -/
